@@ -391,3 +391,7 @@ def run(facts, rep, tier):
              "of equality makes two files share one entry of the library (one of them is written over the other).")
     from . import c16 as _c16
     _c16.rule_r8(facts, rep, "C14-R9", only=("Key",), floor=4)
+    rep.rule("C14-R10", "= C05-R3: a note is reached by linking to its path whatever its name: only urls that start with a complete scheme (`http://`, `https://`, `mailto:`) are external - a note "
+             "named `http-caching` is a note.")
+    from . import c05 as _c05
+    _c05.rule_r3(facts, rep, "C14-R10")
